@@ -945,16 +945,17 @@ def judge_lines(c, mode='frame'):
                 payload = o[7]
                 meta = o[8] if len(o) > 8 and isinstance(o[8], dict) else {}
                 forced = ''
-                if (mode == 'stream' or meta.get('mode') == 'stream') and o[1] == 'tcp':
-                    # the identification is judged on the byte stream of the flow so far, however it was segmented
+                if o[1] == 'tcp':
                     streams[o[6]] = streams.get(o[6], b'') + o[7]
+                if meta.get('mode') == 'sticky' and sticky.get(o[6]):
+                    # later segment of a flow whose sticky protocol id is read from the implementation's table (P op):
+                    # the responder of that protocol sees this segment alone
+                    forced = ' %d' % sticky[o[6]]
+                elif (mode == 'stream' or meta.get('mode') == 'stream') and o[1] == 'tcp':
+                    # the identification is judged on the byte stream of the flow so far, however it was segmented
                     payload = streams[o[6]]
                 elif meta.get('mode') == 'sticky':
-                    # later segment of a flow whose sticky protocol id is read from the implementation's table (P op)
-                    pid = sticky.get(o[6])
-                    if pid is None or pid == 0:
-                        continue
-                    forced = ' %d' % pid
+                    continue
                 lines.append('A %s %s %s %d %d %s %s %s %s%s' % (o[1], ip_model(o[2]), ip_model(o[3]), o[4], o[5], '-' if o[6] is None else o[6],
                                                                hx(payload), parts[0], parts[1] if len(parts) > 1 else '0', forced))
             idx.append(i)
